@@ -1,6 +1,8 @@
 #!/bin/bash
 # Runs every quick check under several VERIF_SEED values; any VIOLATION / HARNESS line is a false alarm on the unchanged tree.
 cd /verif
+# Never trust a binary left over from a run against a patched /repo.
+./build.sh all > /verif/.build/build.log 2>&1 || { echo "build failed"; exit 2; }
 for seed in "$@"; do
 	for id in C02 C03 C04 C05 C07 C08 C09 C10 C11 C12 C13 C14 C15 C16 C18; do
 		VERIF_SEED=$seed VERIF_NO_MINIMISE=1 /verif/.build/target/release/xtsim check $id --tier quick > /tmp/sweep-$id-$seed.out 2>&1
